@@ -10,7 +10,7 @@ from __future__ import annotations
 import ast
 
 from core.guards import atom, atoms_of, conds_formula, f_and, f_not, implies, satisfiable, to_formula
-from core.loader import AnalysisError, ClassInfo, FuncInfo, Repo, ancestors, norm, own_nodes, parent
+from core.loader import ClassInfo, FuncInfo, Repo, norm, own_nodes, parent
 from core.report import Result
 from core.types import members
 
@@ -18,20 +18,16 @@ from .c05_views import (
     family,
     Production,
     all_nodes,
-    clone,
     cond_origin,
     dview,
     key_of,
-    lambda_default_subst,
     names_in,
     productions,
     single_value,
-    substitute,
     target_names,
-    value_cases,
     where_of,
 )
-from .common import conds, copy_prop, dotted, stmt_of, types_of, where
+from .common import conds, types_of, where
 
 LAYER_RULE = "pytestarch.query_language.layered_architecture_rule"
 RULE = "pytestarch.query_language.rule"
